@@ -27,6 +27,7 @@ type PathResult struct {
 	inconcl   int
 	model     map[string]uint64 // a model of the final path condition (sampled paths only)
 	hvals     []NondetVal       // harness-level nondets of that model, in call order
+	env       []FSPre
 	notes     []string
 }
 
@@ -84,6 +85,7 @@ type PathSample struct {
 	Msg     string          `json:"msg,omitempty"`
 	Reached []string        `json:"reached"`
 	Inputs  []NondetVal     `json:"inputs"`
+	Env     []FSPre         `json:"env,omitempty"`
 	Bounds  map[string]int64 `json:"bounds,omitempty"`
 	NDec    int             `json:"decisions"`
 }
@@ -213,9 +215,10 @@ func (w *Worker) runPath(fn *ssa.Function, prefix []Dec, fixed map[string]uint64
 		}
 		if wantModel || res.status == "unwind" || res.status == "unsupported" {
 			if fixed == nil && res.status != "assume" && res.status != "infeasible" {
-				if st, m := ex.sol.CheckModel(nil, ex.nondets); st == "sat" {
+				if st, m := ex.sol.CheckModel(nil, append(append([]*Term{}, ex.nondets...), ex.envTerms()...)); st == "sat" {
 					res.model = m
 					res.hvals = ex.harnessVals(m)
+					res.env = ex.envOf(m)
 				}
 			}
 		}
@@ -342,7 +345,7 @@ func explore(p *Program, opts RunOpts) (*RunResult, error) {
 				rr.Decisions += len(r.decisions)
 				rr.Inconcl += r.inconcl
 				if r.model != nil {
-					ps := PathSample{Entry: opts.Entry, Status: r.status, Msg: r.msg, Inputs: r.hvals, Bounds: opts.Bounds, NDec: len(r.decisions)}
+					ps := PathSample{Entry: opts.Entry, Status: r.status, Msg: r.msg, Inputs: r.hvals, Env: r.env, Bounds: opts.Bounds, NDec: len(r.decisions)}
 					for k := range r.reached {
 						ps.Reached = append(ps.Reached, k)
 					}
